@@ -123,10 +123,8 @@ pub fn record(out_path: &str, count: u64) {
                     // key, say): that is an output-side failure and must read like one.
                     let mi = STREAM_TARGETS.iter().position(|t| *t == "msgpack").expect("msgpack target");
                     let reference = m[mi].clone();
-                    let output_side = |x: &str| match x.strip_prefix("translation failed") {
-                        Some(rest) => rest.split_once(": ").map(|(_, reason)| !reason.is_empty() && !reason.contains("translation failed")).unwrap_or(false),
-                        None => false,
-                    };
+                    // (.. ends with the serializer's reason, not with the synthetic placeholder)
+                    let output_side = |x: &str| x.rsplit_once(": ").map(|(_, reason)| !reason.is_empty() && !reason.contains("translation failed")).unwrap_or(false);
                     let same = m.iter().all(|x| *x == reference || output_side(x));
                     let has_tf = reference.contains("translation failed") || m.iter().any(|x| *x != reference && x.contains("translation failed") && !output_side(x));
                     rec(&mut sum, json!({"ev": "fail", "side": "input", "from": fmt, "to": "streaming", "reader": reader, "res": "err",
